@@ -112,6 +112,13 @@ class GreedySelector(Selector):
                 )
                 losses.append(score)
 
+            # No candidate is eligible (e.g., a single predictor, or every predictor is already
+            # selected without replacement): the ensemble cannot grow further
+            if np.all(np.isnan(losses)):
+                if self.verbose:
+                    print(f"Step {it + 1}, no candidate left, ensemble selection stopped")
+                break
+
             i_min_ = np.nanargmin(losses)
             loss_min_ = losses[i_min_]
             it += 1
